@@ -68,7 +68,7 @@ LAYOUTS = {
                 dict(layout="station1", nt=1, ntime=None, gz=False, special="none", dirs="rotated3"), dict(layout="station1", nt=2, ntime=None, gz=False, special="none", dirs="rotated3", dimorder="dir_freq"),
                 dict(layout="grid2x3", nt=1, ntime=None, gz=False, special="none", dirs="sorted", dimorder="dir_freq")],
          thorough=[dict(layout=l, nt=nt, ntime=k, gz=g, special=sp, dirs=d) for l in ("stations", "grid2x3", "grid3x2", "grid1x2") for nt, k in ((2, None), (3, 2)) for g in (False, True) for sp in ("none", "mixed") for d in ("sorted", "unsorted")],
-         max_paths=3000, time_budget=500, time_budget_thorough=2400, hard_timeout_thorough=2700)
+         max_paths=3000, time_budget=330, hard_timeout=600, time_budget_thorough=2400, hard_timeout_thorough=2700)
 def swan_roundtrip(env, layout, nt, ntime, gz, special, dirs, dimorder="freq_dir"):
     """to_swan -> real file -> read_swan: every cell comes back at the position it was written from, within the
     resolution of its FACTOR block; all-zero stays zero, all-missing stays missing; coordinates and times equal."""
